@@ -18,6 +18,7 @@ import tempfile
 ROOT = os.path.dirname(os.path.dirname(os.path.abspath(__file__)))
 REPO = os.environ.get("SEGVC_REPO", "/repo")
 A = "src/anyio/_backends/_asyncio.py"
+M = "src/anyio/streams/memory.py"
 S = "src/anyio/_core/_synchronization.py"
 
 # (id, property, kind, file, old, new, what)
@@ -54,6 +55,19 @@ MUTANTS = [
     ("C11-adapter-drops-early-set", "C11", "break", S, "            self._internal_event = get_async_backend().create_event()\n            if self._is_set:\n                self._internal_event.set()\n", "            self._internal_event = get_async_backend().create_event()\n", "a set() issued before the loop exists is forgotten when the backend event is created"),
     ("C11-rename-local", "C11", "harmless", S, "        event = Event()\n        self._waiters.append(event)\n        self.release()\n        try:\n            await event.wait()\n        except BaseException:\n            if not event.is_set():\n                self._waiters.remove(event)", "        ev = Event()\n        self._waiters.append(ev)\n        self.release()\n        try:\n            await ev.wait()\n        except BaseException:\n            if not ev.is_set():\n                self._waiters.remove(ev)", "local renamed"),
     ("C11-notify-while-loop", "C11", "harmless", S, "        for _ in range(n):\n            try:\n                event = self._waiters.popleft()\n            except IndexError:\n                break\n\n            event.set()\n", "        while n > 0 and self._waiters:\n            self._waiters.popleft().set()\n            n -= 1\n", "notify re-phrased as a correct while loop"),
+    # ---------------------------------------------------------------- C12 / C13 memory object streams
+    ("C12-skip-pending-cancellation-test", "C12", "break", M, "            if not receiver.task_info.has_pending_cancellation():\n                receiver.item = item", "            if True:\n                receiver.item = item", "item handed to a receiver that is about to be cancelled"),
+    ("C12-buffer-beyond-max", "C12", "break", M, "        if len(self._state.buffer) < self._state.max_buffer_size:", "        if len(self._state.buffer) <= self._state.max_buffer_size:", "one item more than max_buffer_size is buffered"),
+    ("C12-receivers-lifo", "C12", "break", M, "            receive_event, receiver = self._state.waiting_receivers.popitem(last=False)", "            receive_event, receiver = self._state.waiting_receivers.popitem(last=True)", "newest blocked receiver is served first"),
+    ("C12-receive-no-deregister", "C12", "break", M, "            try:\n                await receive_event.wait()\n            finally:\n                self._state.waiting_receivers.pop(receive_event, None)\n", "            await receive_event.wait()\n", "an interrupted receive stays queued"),
+    ("C12-sender-item-not-moved", "C12", "break", M, "            send_event, item = self._state.waiting_senders.popitem(last=False)\n            self._state.buffer.append(item)\n            send_event.set()", "            send_event, item = self._state.waiting_senders.popitem(last=False)\n            send_event.set()", "a blocked sender is released but its item is dropped"),
+    ("C13-close-decrements-twice", "C13", "break", M, "        if not self._closed:\n            self._closed = True\n            self._state.open_send_channels -= 1", "        if True:\n            self._closed = True\n            self._state.open_send_channels -= 1", "closing a send handle twice is counted twice"),
+    ("C13-last-send-close-keeps-receivers-queued", "C13", "break", M, "                receive_events = list(self._state.waiting_receivers.keys())\n                self._state.waiting_receivers.clear()\n", "                receive_events = list(self._state.waiting_receivers.keys())\n", "woken receivers stay in the queue"),
+    ("C13-eos-before-buffer", "C13", "break", M, "        if self._state.buffer:\n            return self._state.buffer.popleft()\n        elif not self._state.open_send_channels:\n            raise EndOfStream", "        if not self._state.open_send_channels:\n            raise EndOfStream\n        elif self._state.buffer:\n            return self._state.buffer.popleft()", "EndOfStream although items remain"),
+    ("C13-clone-of-closed-handle", "C13", "break", M, "        if self._closed:\n            raise ClosedResourceError\n\n        return MemoryObjectSendStream(_state=self._state)", "        return MemoryObjectSendStream(_state=self._state)", "a closed send handle can be cloned (reopens a fully closed side)"),
+    ("C13-broken-test-inverted", "C13", "break", M, "        if not self._state.open_receive_channels:\n            raise BrokenResourceError", "        if self._state.waiting_senders and not self._state.open_receive_channels:\n            raise BrokenResourceError", "send_nowait accepted although every receive clone is closed"),
+    ("C12-rename-local", "C12", "harmless", M, "            receive_event, receiver = self._state.waiting_receivers.popitem(last=False)\n            if not receiver.task_info.has_pending_cancellation():\n                receiver.item = item\n                receive_event.set()\n                return", "            ev, rcv = self._state.waiting_receivers.popitem(last=False)\n            if not rcv.task_info.has_pending_cancellation():\n                rcv.item = item\n                ev.set()\n                return", "locals renamed"),
+    ("C13-close-helper-refactor", "C13", "harmless", M, "                send_events = list(self._state.waiting_senders.keys())\n                for event in send_events:\n                    event.set()\n", "                blocked = list(self._state.waiting_senders.keys())\n                for ev in blocked:\n                    ev.set()\n", "locals of the wake-all loop renamed"),
 ]
 
 
